@@ -545,10 +545,34 @@ theorem hostrangePop_fields {r r' : HRange} {x : Str} (h : hostrangePop r = (som
 
 theorem popE_keep (cfg : Cfg) (D : List RObj) (o : RObj) (nh : Int) (nx : Nat) (its : List (Nat × ItSt)) (x : Str)
     (r' : HRange) (hpos : nh > 0) (hp : hostrangePop o.r = (some x, r')) (hne : r'.empty = false) :
-    popE cfg ⟨D ++ [o], nh, nx, its⟩ = .ok (some x, ⟨D ++ [{ o with r := r' }], nh - 1, nx, its⟩) := by
+    popE cfg ⟨D ++ [o], nh, nx, its⟩ = .ok (some x, ⟨D ++ [{ o with r := r' }], nh - 1, nx,
+      popIts cfg ⟨D ++ [{ o with r := r' }], nh - 1, nx, its⟩ r'⟩) := by
   unfold popE
   simp only [hpos, ↓reduceIte, List.getLast?_append, List.getLast?_singleton, Option.some_or, hp, hne,
     Bool.false_eq_true, List.dropLast_concat]
+
+/-- the one iterator after a pop that shortened the last record: as found it is not touched; repaired
+    (F16-ENDPUSH) it steps back when it stood on the popped host -/
+theorem popIts_one (cfg : Cfg) (rs : List RObj) (nh : Int) (nx i k : Nat) (hr : Option Nat) (r' : HRange) :
+    ∃ kk : Nat, popIts cfg ⟨rs, nh, nx, [(0, ⟨(i : Int), (k : Int) - 1, hr⟩)]⟩ r'
+        = [(0, ⟨(i : Int), (kk : Int) - 1, hr⟩)] ∧
+      (kk = k ∨ ((i : Int) = (rs.length : Int) - 1 ∧ subU64 r'.hi r'.lo + 1 ≤ kk ∧ kk + 1 = k)) := by
+  unfold popIts
+  rcases Bool.eq_false_or_eq_true cfg.fixEndPush with hfx | hfx
+  · simp only [hfx, ↓reduceIte, shiftIterators, List.map_cons, List.map_nil]
+    by_cases hcond : ((i : Int) = (rs.length : Int) - 1) ∧ ((k : Int) - 1 ≥ ((subU64 r'.hi r'.lo + 1 : Nat) : Int))
+    · refine ⟨k - 1, ?_, Or.inr ⟨hcond.1, by omega, by omega⟩⟩
+      have h1 : ((k : Int) - 1 > -1) := by omega
+      simp only [hcond.1, hcond.2, h1, decide_true, Bool.and_self, ↓reduceIte]
+      congr 3
+      omega
+    · refine ⟨k, ?_, Or.inl rfl⟩
+      have : (decide ((i : Int) = (rs.length : Int) - 1) && decide ((k : Int) - 1 ≥ ((subU64 r'.hi r'.lo + 1 : Nat) : Int))) = false := by
+        refine Bool.eq_false_iff.mpr (fun h => hcond ?_)
+        have h' := Bool.and_eq_true_iff.mp h
+        exact ⟨of_decide_eq_true h'.1, of_decide_eq_true h'.2⟩
+      simp only [this, Bool.false_eq_true, ↓reduceIte]
+  · exact ⟨k, by simp [hfx], Or.inl rfl⟩
 
 theorem popE_gone (cfg : Cfg) (hfix : cfg.fixPopIter = true) (D : List RObj) (o : RObj) (nh : Int) (nx : Nat)
     (its : List (Nat × ItSt)) (x : Str) (r' : HRange) (hpos : nh > 0) (hp : hostrangePop o.r = (some x, r'))
@@ -791,9 +815,13 @@ theorem pop_refines (cfg : Cfg) (hD19 : cfg.fixRemoveDepth = true) (hD20 : cfg.f
             have hn2 : (D.map (·.r) ++ [o.r])[i]? = none := by simp; omega
             rw [hdn, hcursor, ← hrem, remaining_none hn1, remaining_none hn2]
             rfl
-    · -- the last record keeps hosts: the iterator is not touched
+    · -- the last record keeps hosts: the iterator is not touched (repaired F16-ENDPUSH: it steps back
+      -- when it stood on the popped host)
       have hcomp := popE_keep cfg D o nh nx [(0, ⟨(i : Int), (k : Int) - 1, EL.hrAt ⟨D ++ [o], nh, nx, its⟩ (i : Int)⟩)] x r' hpos hp hnee
       rw [hcomp] at hpop0 ⊢
+      obtain ⟨kk, hkk, hcs⟩ := popIts_one cfg (D ++ [{ o with r := r' }]) (nh - 1) nx i k
+        (EL.hrAt ⟨D ++ [o], nh, nx, its⟩ (i : Int)) r'
+      rw [hkk] at hpop0 ⊢
       simp only [Except.ok.injEq, Prod.mk.injEq] at hpop0
       obtain ⟨fw, fh, fs⟩ := hostrangePop_fields hp hog hnee
       have hids' := ids_shrink D [] o r' nx hnd
@@ -805,14 +833,30 @@ theorem pop_refines (cfg : Cfg) (hD19 : cfg.fixRemoveDepth = true) (hD20 : cfg.f
         · exact narrow_of_le (h.full o.r (by rw [hranges]; simp)) fw fh fs
       refine ⟨_, rfl, ⟨by simpa [EL.IdsOk] using hids', by rw [hpop0.2]; exact hg0,
         by simpa [EL.ranges] using hfull', by rw [hpop0.2, hhosts0, hdn], hdc, by rw [hdn]; exact hc'le,
-        i, k, ?_, ?_, by intro hf'; simp at hf'⟩⟩
-      · exact coh_mk (D ++ [{ o with r := r' }]) (nh - 1) nx i k (i : Int) ((k : Int) - 1)
+        i, kk, ?_, ?_, by intro hf'; simp at hf'⟩⟩
+      · exact coh_mk (D ++ [{ o with r := r' }]) (nh - 1) nx i kk (i : Int) ((kk : Int) - 1)
           (EL.hrAt ⟨D ++ [o], nh, nx, its⟩ (i : Int)) rfl rfl (by
           rw [hrAt_nat, ← List.getElem?_map, ← List.getElem?_map]
           simp)
-      · show remaining ((D ++ [({ o with r := r' } : RObj)]).map (·.r)) i k = _
+      · show remaining ((D ++ [({ o with r := r' } : RObj)]).map (·.r)) i kk = _
         have e4 : (D ++ [({ o with r := r' } : RObj)]).map (·.r) = D.map (·.r) ++ [r'] := by simp
         rw [e4, hdn, hcursor, ← hrem]
+        rcases hcs with hkeq | ⟨hil, hk1, hk2⟩
+        case inr =>
+          -- it stood on (or behind) the popped host: nothing is left before and after
+          have hieq : i = D.length := by
+            have : ((D ++ [({ o with r := r' } : RObj)]).length : Int) = (D.length : Int) + 1 := by simp
+            omega
+          subst hieq
+          have hsp := hg'.span
+          have e5 : D.map (·.r) ++ [r'] = D.map (·.r) ++ r' :: [] := rfl
+          have e6 : D.map (·.r) ++ [o.r] = D.map (·.r) ++ o.r :: [] := rfl
+          rw [e5, e6, ← hDl, remaining_mid, remaining_mid, hx]
+          simp only [hostsL, List.flatMap_nil, List.append_nil]
+          have d1 : r'.hosts.drop kk = [] := List.drop_eq_nil_iff.mpr (by omega)
+          have d2 : (r'.hosts ++ [x]).drop k = [] := List.drop_eq_nil_iff.mpr (by simp; omega)
+          rw [d1, d2]; rfl
+        rw [hkeq]
         by_cases hilt : i < D.length
         · rw [remaining_append _ _ _ _ (by rw [hDl]; exact hilt), remaining_append _ _ _ _ (by rw [hDl]; exact hilt)]
           simp only [hostsL, List.flatMap_cons, List.flatMap_nil, List.append_nil, hx]
